@@ -195,6 +195,36 @@ def rules(cs, g):
              ('(lambda %s, *%s: 0)', 'expr'), ('(lambda *, %s, **%s: 0)', 'expr'), ('def f(%s: int, %s: str = "") -> None: pass\n', 'stmt')]
     ftmpl, fkind = cs.pick(forms)
     t = ftmpl % (p1, p1)
+    if cs.bool(150):
+        # a whole parameter list from its grammar: 2-6 parameters over the five kinds, two of them (any two kinds, `*a` and `**a`
+        # included) sharing one name
+        kinds = []
+        for kind, mx in (('posonly', 2), ('pos', 2), ('vararg', 1), ('kwonly', 2), ('kwarg', 1)):
+            kinds += [kind] * cs.choice(mx + 1)
+        if len(kinds) < 2:
+            kinds = cs.pick([['vararg', 'kwarg'], ['pos', 'kwarg'], ['posonly', 'vararg'], ['pos', 'pos'], ['kwonly', 'kwonly']])
+        i1 = cs.choice(len(kinds))
+        i2 = (i1 + 1 + cs.choice(len(kinds) - 1)) % len(kinds)
+        lam = cs.bool(70)
+        names = ['q%d' % j for j in range(len(kinds))]
+        names[i1] = names[i2] = p1
+        parts, seen_default = [], False
+        for j, (kind, nm) in enumerate(zip(kinds, names)):
+            if kind == 'kwonly' and 'vararg' not in kinds and (j == 0 or kinds[j - 1] != 'kwonly'):
+                parts.append('*')
+            txt = {'vararg': '*', 'kwarg': '**'}.get(kind, '') + nm
+            if not lam and cs.bool(60):
+                txt += ': int'
+            if kind in ('posonly', 'pos') and (seen_default or cs.bool(60)):
+                txt += '=1' if lam or ':' not in txt else ' = 1'
+                seen_default = True
+            elif kind == 'kwonly' and cs.bool(100):
+                txt += '=2' if lam or ':' not in txt else ' = 2'
+            parts.append(txt)
+            if kind == 'posonly' and (j + 1 == len(kinds) or kinds[j + 1] != 'posonly'):
+                parts.append('/')
+        sig = ', '.join(parts)
+        t, fkind = ('(lambda %s: 0)' % sig, 'expr') if lam else ('%sdef f(%s): pass\n' % (cs.pick(['', 'async ']), sig), 'stmt')
     # (either occurrence may be the one reported: the construct is the pair)
     out.append(('R16_duplicate_parameter', fkind, t, (span_of(t, p1, 0)[0], span_of(t, p1, 1)[1]), lambda e, p=p1: lex(e, 'DuplicateArgumentError') and e.get('arg') == p, True))
     forms = [('def f(%s=1, %s): pass\n', 'stmt'), ('def f(%s=1, /, %s): pass\n', 'stmt'), ('def f(x, %s=1, /, %s): pass\n', 'stmt'), ('(lambda %s=1, %s: 0)', 'expr'),
